@@ -602,7 +602,7 @@ Proof. induction ps as [|[[st ev] tm] r IH]; intros id; cbn [number_units length
 Lemma define_mid_inv (c : N) (newsys : bool) (s : fspec) (W : world) : Inv W ->
   let gen := w_next W in
   let units := number_units (s_crash s) gen (gen + 1) (if newsys then new_protos s else legacy_protos s) in
-  let f := {| f_gen := gen; f_ctx := c; f_new := newsys; f_units := units; f_svc := s_svc s; f_pos := s_pos s |} in
+  let f := {| f_gen := gen; f_ctx := c; f_new := newsys; f_units := units; f_svc := s_svc s; f_pos := s_pos s; f_inline := memn c (w_auto W) |} in
   let Wf := {| w_led := w_led W; w_funcs := w_funcs W ++ [f]; w_active := w_active W; w_delayed := w_delayed W;
                w_pending := w_pending W; w_zombie := w_zombie W; w_running := w_running W; w_starting := w_starting W;
                w_hdl := w_hdl W; w_auto := w_auto W; w_next := gen + 1 + N.of_nat (length units); w_log := w_log W |} in
@@ -684,7 +684,7 @@ Proof.
   intros AO HI. pose proof HI as [I [S L]]. unfold define.
   set (gen := w_next W).
   set (units := number_units (s_crash s) gen (gen + 1) (if newsys then new_protos s else legacy_protos s)).
-  set (f := {| f_gen := gen; f_ctx := c; f_new := newsys; f_units := units; f_svc := s_svc s; f_pos := s_pos s |}).
+  set (f := {| f_gen := gen; f_ctx := c; f_new := newsys; f_units := units; f_svc := s_svc s; f_pos := s_pos s; f_inline := memn c (w_auto W) |}).
   set (Wf := {| w_led := w_led W; w_funcs := w_funcs W ++ [f]; w_active := w_active W; w_delayed := w_delayed W;
                 w_pending := w_pending W; w_zombie := w_zombie W; w_running := w_running W; w_starting := w_starting W;
                 w_hdl := w_hdl W; w_auto := w_auto W; w_next := gen + 1 + N.of_nat (length units); w_log := w_log W |}).
@@ -792,13 +792,13 @@ Lemma dropped_inv cfg g W : all_off cfg -> Inv W -> Inv (dropped cfg g W) /\ shr
 Proof.
   intros AO HI. unfold dropped. destruct (find_func W g) as [f|] eqn:FF; [|split; [exact HI|apply shrink_refl]].
   destruct (find_func_some W g f FF) as [Hf EG]. subst g.
-  pose proof AO as [D16 [D90 [D91 D21]]]. rewrite D90.
+  pose proof AO as [D16 [D90 [D91 [D21 [D92 D93]]]]]. rewrite D90, D93.
   destruct (f_new f) eqn:NF.
   - destruct (memn (f_gen f) (w_active W)) eqn:MA; [|split; [exact HI|apply shrink_refl]].
     destruct (memn (f_gen f) (w_delayed W)) eqn:MD.
     + apply memn_In in MD. destruct (dm_discard_inv W f HI Hf NF MD) as [H1 [T [A1 _]]].
       split; [exact H1|split; [exact T|intros x Hx; apply A1; exact Hx]].
-    + destruct (dm_stop_inv cfg W f AO HI Hf NF) as [H1 [T [A1 _]]].
+    + cbn [andb]. destruct (dm_stop_inv cfg W f AO HI Hf NF) as [H1 [T [A1 _]]].
       split; [exact H1|split; [exact T|intros x Hx; apply A1; exact Hx]].
   - destruct (leg_func_stop_inv cfg W f AO HI Hf NF) as [H1 [T [A1 _]]].
     split; [exact H1|split; [exact T|intros x Hx; apply A1; exact Hx]].
@@ -940,7 +940,7 @@ Proof.
   - apply do_reap_inv. exact HI.
   - apply settle_inv. exact HI.
   - apply crash_all_inv; assumption.
-  - pose proof AO as [_ [_ [_ [_ D92]]]]. rewrite D92. apply ctx_start_inv; assumption.
+  - pose proof AO as [_ [_ [_ [_ [D92 _]]]]]. rewrite D92. apply ctx_start_inv; assumption.
   - apply crash_all_inv; [exact AO|apply Inv_log; exact HI].
   - apply crash_all_inv; [exact AO|apply Inv_log; exact HI].
   - apply crash_all_inv; [exact AO|apply Inv_log; exact HI].
